@@ -175,7 +175,10 @@ def run_case(case):
                 f.write(drawer.render_string_file(rng, strings))
             label = 'synthetic'
         data = build(rng, strings, k)
-        if label != 'synthetic' and (k // 20) % 2 and data:
+        if label != 'synthetic' and (k // 20) % 4 == 3 and data:
+            lines = drawer.lines_via_process(84, {'mexStringFile': 1, 'nimitzStringFile': 2}[label], data,
+                                             seams.PROC_ROTATION[(k // 80) % len(seams.PROC_ROTATION)])
+        elif label != 'synthetic' and (k // 20) % 2 and data:
             # through the I/O drawer plug-in, which picks the string file by section version (the two drawer types
             # take turns in one process)
             import json
